@@ -8,19 +8,22 @@ TITLE = 'LIS tables and format specifications survive encode then decode'
 NATIVE = 'plain'
 NEEDS = ('icontract',)
 RULE = ('Tables: 4-byte name and distinct 4-byte column mnemonics (printable, or any bytes in a fraction of the tables; the first '
-        'column is often MNEM as in real files), 0..15 rows, 1..8 columns, cells = bytes of length 0..255, ints drawn from the 8/16/32 bit '
-        'ranges including their edges, floats inside the code 68 range, optional 4-byte units, injected duplicate row names.  Composed '
-        'with LrTableWrite, written with genLisBytes, framed into physical records by the independent framer of tdv.gen.lis (all '
+        'column is often MNEM as in real files), 0..15 rows (0.7 %: 40..400 rows, the record then reaches beyond 64 KiB), 1..12 columns, '
+        'cells = bytes of length 0..255, ints drawn from the 8/16/32 bit '
+        'ranges including their edges, floats inside the code 68 range, optional 4-byte units given as (value, units) tuple or list, injected duplicate row names.  Composed '
+        'with LrTableWrite, written with genLisBytes (one in eight twice from the same object), framed into physical records by the independent framer of tdv.gen.lis (all '
         'trailer/TIF/length layouts) and decoded with LrTableRead through File.FileRead.  A second path feeds LrTableRead with table '
         'bytes of the independent encoder (duplicate rows physically present).  Format specifications: any subset of the entry '
-        'blocks 1..16 (not 10) with standard sizes and codes via EntryBlockSet.setEntryBlock, lisBytes() parsed by the harness and, '
-        'followed by 1..10 channel blocks packed by the harness, decoded with LrDFSRRead.  A case is one table or one specification; '
+        'blocks 1..16 (not 10) with standard sizes and codes via EntryBlockSet.setEntryBlock (a third of the specifications set some blocks '
+        'twice with different sizes, a third ask for lisBytes() while composing), lisBytes() parsed by the harness and, '
+        'followed by 1..10 (3 %: 30..129) channel blocks packed by the harness, decoded with LrDFSRRead.  A case is one table or one specification; '
         'distinct by its composition; non-trivial = a table with >= 2 rows and >= 2 cell types, or a specification with at least '
         'one entry block set.')
 ASSUMPTIONS = [
     'floats are drawn from 0 and 2^-120 <= |v| <= 2^126 and compared within 2^-22 relative (code 68 has a 23 bit mantissa); everything else exactly',
     'column mnemonics within a table are distinct; bool cells, bytes longer than 255 and ints beyond 32 bits are outside the quantifier',
     'row names are bytes or ints (float row names would make "duplicate" depend on rounding)',
+    'a bytes row name resolves (table[name]) to the row that was kept for that name',
     'the composing model is the oracle: for entry blocks that were not set, the values held by the composing EntryBlockSet',
     'channel blocks are packed by the harness (TotalDepth has no writer for them); API codes are not compared',
     'entry block sizes are the standard ones for the chosen representation code (1 for 66, 2 for 79, 4 for 65/68/73) or the absent form (size 0)',
@@ -148,9 +151,12 @@ def rand_bytes_cell(rng, anyb):
 def gen_table(rng, tier):
     """Returns a composition: dict(lr_type, name, mnems, rows) with rows of (value, units|None)."""
     anyb = rng.random() < (0.15 if tier == 'quick' else 0.4)
-    allow16 = rng.random() < 0.18
+    allow16 = rng.random() < 0.6           # (was a minority while code 79 had no writer, finding F7, repaired)
     name = rb(rng, 4, anyb)
-    ncol = rng.choice([1, 2, 2, 3, 3, 4, 5, 6, 8])
+    ncol = rng.choice([1, 2, 2, 3, 3, 4, 5, 6, 8, 8, 12])
+    big = rng.random() < 0.007             # a table of the size of a real CONS / PRES table: the record exceeds 64 KiB at the top end
+    if big:
+        ncol = rng.choice([3, 5, 8])
     mn = []
     while len(mn) < ncol:
         m = rb(rng, 4, anyb)
@@ -161,6 +167,8 @@ def gen_table(rng, tier):
     elif ncol > 1 and rng.random() < 0.04:
         mn[rng.randrange(1, ncol)] = b'MNEM'
     nrow = rng.choice([0, 1, 1, 2, 3, 4, 5, 6, 8, 11, 15])
+    if big:
+        nrow = rng.randrange(40, 400)
     int_names = rng.random() < (0.04 if mn[0] == b'MNEM' else 0.12)
     rows = []
     names = []
@@ -222,7 +230,18 @@ def compare_table(read, name, mnems, kept, expect_value, last_block_pos):
         other.append('%d rows decoded, %d expected after dropping later duplicates' % (len(got_rows), len(kept)))
     if kept and list(read.colLabels()) != list(mnems):
         other.append('column labels %r, composed %r' % (list(read.colLabels()), list(mnems)))
+    if len(read) != len(got_rows):
+        other.append('len(table) = %d but %d rows are generated' % (len(read), len(got_rows)))
     for ri, (er, gr) in enumerate(zip(kept, got_rows)):
+        # a row name stands for the row that was kept (the first of its duplicates)
+        if type(er[0][0]) is bytes:
+            try:
+                hit = read[er[0][0]]
+            except Exception as e:  # noqa
+                hit = e
+            if hit is not gr:
+                other.append('row name %r does not resolve to row %d (the kept row of that name) but to %s' % (
+                    er[0][0], ri, ('row %d' % got_rows.index(hit)) if hit in got_rows else repr(hit)[:80]))
         cells = list(gr.genCells())
         if len(cells) != len(er):
             other.append('row %d has %d cells, expected %d' % (ri, len(cells), len(er)))
@@ -322,12 +341,22 @@ def gen_entry_blocks(rng):
     rng.shuffle(chosen)
     for t in chosen:
         out[t] = choices[t]()
-    if rng.random() < 0.85:
-        # code 79 has no writer (F7); keep it to a minority so that the rest of the property is exercised
+    # a composing history: some blocks are first given another value / size and set again later (the last setting counts);
+    # some of these earlier settings concern blocks that end up at their default again is not possible through the API, so
+    # every earlier setting is for a chosen block
+    earlier = []
+    if chosen and rng.random() < 0.35:
+        for t in rng.sample(chosen, rng.randrange(1, min(4, len(chosen)) + 1)):
+            for _ in range(rng.choice([1, 1, 2])):
+                earlier.append((t, choices[t]()))
+        rng.shuffle(earlier)
+    if rng.random() < 0.4:
+        # 16 bit integers as code 73 instead of code 79 in a part of the specifications (code 79 had no writer, finding F7, repaired)
         for t in list(out):
             if out[t][1] == 79:
                 out[t] = (4, 73, out[t][2])
-    return out, chosen
+        earlier = [(t, (4, 73, v[2]) if v[1] == 79 else v) for t, v in earlier]
+    return out, chosen, earlier
 
 
 CH_CODES = (49, 50, 56, 66, 68, 70, 73, 77, 79)
@@ -336,7 +365,10 @@ CH_CODES = (49, 50, 56, 66, 68, 70, 73, 77, 79)
 def gen_channels(rng):
     from tdv.gen import lis
     out = []
-    for _ in range(rng.choice([1, 1, 2, 3, 4, 5, 6, 8, 10])):
+    nch = rng.choice([1, 1, 2, 3, 4, 5, 6, 8, 10])
+    if rng.random() < 0.03:
+        nch = rng.randrange(30, 130)           # real specifications list up to a hundred and more channels
+    for _ in range(nch):
         k = rng.random()
         if k < 0.04:
             rc, sa, bu, size = 130, 1, 1, 80
@@ -400,6 +432,10 @@ def run_shard(ctx, p):
             cl.append('has-255-bytes')
         if any(u is not None for row in kept for _v, u in row):
             cl.append('has-units')
+        if len(kept) >= 40:
+            cl.append('rows-40-or-more')
+        if len(comp['mnems']) > 8:
+            cl.append('columns-more-than-8')
         return cl, types
 
     # =========================================================== tables through the real writer
@@ -413,14 +449,23 @@ def run_shard(ctx, p):
                  sample={'name': comp['name'], 'mnems': comp['mnems'], 'rows': len(comp['rows']), 'first_row': repr(comp['rows'][:1])[:300]} if nontrivial else None)
         rec.mon('table_roundtrip')
         w = comp_witness(comp)
-        table_rows = [[(v if u is None else (v, u)) for v, u in row] for row in comp['rows']]
+        as_list = rng.random() < 0.3          # LrTableWrite documents "(value, units)" as a tuple or a list
+        table_rows = [[(v if u is None else ([v, u] if as_list else (v, u))) for v, u in row] for row in comp['rows']]
+        if as_list:
+            rec.cls('units-given-as-list')
         try:
             t = LogiRec.LrTableWrite(comp['lr_type'], comp['name'], list(comp['mnems']), table_rows)
             lr = bytes([comp['lr_type'], 0]) + b''.join(t.genLisBytes())
+            again = (bytes([comp['lr_type'], 0]) + b''.join(t.genLisBytes())) if i % 8 == 3 else lr
         except Exception as e:  # noqa
             viol('table_roundtrip', 'write-exception', 'LrTableWrite/genLisBytes raised %s: %s' % (type(e).__name__, e), w, exc=e)
             continue
         rec.add('table_bytes_written', len(lr))
+        if i % 8 == 3:
+            rec.mon('table_written_twice')
+            if again != lr:
+                viol('table_roundtrip', 'second-write-differs', 'genLisBytes() of one LrTableWrite gave different bytes the second time (%d then %d bytes)' % (
+                    len(lr), len(again)), dict(w, record=lr[:600], record_again=again[:600]))
         if len(comp['rows']) != len(kept):
             rec.mon('duplicate_rows')
         # the writer's bytes parsed by the harness (component block layout; the size field advances the parse)
@@ -515,17 +560,31 @@ def run_shard(ctx, p):
     default_blocks = {t: tuple(defaults[t]) for t in range(17)}
     for i in range(n_dfsr):
         rng = ctx.sub_rng('df', i)
-        blocks, order = gen_entry_blocks(rng)
+        blocks, order, earlier = gen_entry_blocks(rng)
         chans = gen_channels(rng)
         rec.case(('df', repr(sorted(blocks.items())), repr(order), repr(chans)), bool(blocks),
                  classes=['dfsr', 'dfsr-blocks-%s' % ('0' if not blocks else 'all' if len(blocks) == 15 else 'some')],
                  sample={'entry_blocks': {str(k): repr(v) for k, v in blocks.items()}, 'channels': len(chans)} if i < 2 else None)
-        w = {'blocks_set': {str(t): list(blocks[t]) for t in order}, 'order': order, 'codes_set': sorted(set(b[1] for b in blocks.values()))}
+        w = {'blocks_set': {str(t): list(blocks[t]) for t in order}, 'order': order, 'codes_set': sorted(set(b[1] for b in blocks.values()) | set(v[1] for _t, v in earlier)),
+             'set_earlier_then_overwritten': [[t, list(v)] for t, v in earlier]}
         rec.mon('entry_blocks_written')
         ebs = LogiRec.EntryBlockSet()
+        # the operations on the set: earlier settings, then the final ones; in a third of the histories the bytes / the size are
+        # asked for in between (what is remembered from a query must not survive the next setting)
+        ops = [(t, v) for t, v in earlier] + [(t, blocks[t]) for t in order]
+        ask_at = set(rng.sample(range(len(ops)), min(len(ops), rng.randrange(1, 4)))) if ops and rng.random() < 0.33 else set()
+        if earlier:
+            rec.cls('dfsr-blocks-set-twice')
+        if ask_at:
+            rec.cls('dfsr-bytes-asked-while-composing')
         try:
-            for t in order:
-                ebs.setEntryBlock(LogiRec.EntryBlock(t, *blocks[t]))
+            for k, (t, v) in enumerate(ops):
+                if k in ask_at:
+                    mid = bytes(ebs.lisBytes())
+                    if len(mid) % 2:
+                        viol('entry_block_padding', 'bytes', 'EntryBlockSet.lisBytes() while composing: entry block section has odd length %d' % len(mid),
+                             dict(w, bytes=mid, after_operations=k))
+                ebs.setEntryBlock(LogiRec.EntryBlock(t, *v))
             eb_bytes = bytes(ebs.lisBytes())
         except Exception as e:  # noqa
             viol('entry_blocks_written', 'write-exception', 'EntryBlockSet compose/lisBytes raised %s: %s' % (type(e).__name__, e), w, exc=e)
@@ -625,6 +684,8 @@ def run_shard(ctx, p):
         bad = []
         if len(d.dsbBlocks) != len(chans):
             bad.append('%d channel blocks decoded, %d written' % (len(d.dsbBlocks), len(chans)))
+        if len(chans) >= 30:
+            rec.cls('dfsr-30-or-more-channels')
         for ci, (c, g) in enumerate(zip(chans, d.dsbBlocks)):
             rec.cls('channel-rc-%d' % c['rc'])
             if c['rc'] == 130:
